@@ -239,7 +239,9 @@ def run_shape(case, ctx) -> None:
     scale = min(mx, 1e30) if E < 8 else min(mx, 2.0**100)
     big = [s * 2 if layout == "strided" else s for s in shape]
     x = (torch.randn(big, generator=g, dtype=torch.float64) * rng.choice([1.0, scale / 4, O.min_normal(E) * 2])).to(dtype)
-    if dname == "float64" and rng.random() < 0.7:
+    if dname == "float64":
+        # the property quantifies over float32 VALUES held in tensors of the four dtypes (a generic float64 value is rounded to
+        # float32 first, which may legitimately cost another 2^(M-24) of the spacing)
         x = x.float().double()
     if layout == "strided":
         x = x[tuple(slice(None, None, 2) for _ in shape)]
